@@ -264,3 +264,23 @@ Proof.
   split; [apply (vdec_den 10 1000000); vm_compute; reflexivity|].
   split; [vm_compute; reflexivity|]. split; [discriminate|]. split; vm_compute; reflexivity.
 Qed.
+
+(* canon_m_correct_statement restricted to cdom (and a non-negative traversal budget), all outcomes:
+   bytes are the canonical form; no panic (CanonSafe.canonicalize_safe); errors unconstrained *)
+Theorem canon_m_correct_cdom_full : forall fuel c fx m rl s v,
+  all_cfixed fx -> cfg_strict c = true -> msg_ok m -> wf_ptr m s ->
+  (p_valid s = true -> p_kind s = KStruct /\ DataSize (p_size s) mod 8 = 0) ->
+  den true m 0 [] s v -> cdom v = true -> 0 <= rl ->
+  forall r rl', canonicalize c fx fuel m rl s = (r, rl') ->
+  match r with
+  | KOk bs => canon v = Some bs
+  | KErr => True
+  | KPanic => False
+  | KFuel => True
+  end.
+Proof.
+  intros fuel c fx m rl s v Hf Hs M W K D Hd Hrl r rl' C. destruct r as [bs| | |]; try exact I.
+  - eapply canon_m_correct_cdom; eassumption.
+  - destruct (canonicalize_safe c fx fuel m rl s Hs (proj1 Hf) M (conj W (fun Hv => proj1 (K Hv))) Hrl) as [NP _].
+    rewrite C in NP. apply NP. reflexivity.
+Qed.
